@@ -27,8 +27,14 @@ FIXED_MESSAGES = {
     "TagOpen": "an <info>open tag", "TagClose": "a closing </info> tag only", "TagUnbalanced": "<b>x</info>",
     "MultiLine": "line one\nline two\n  indented line three", "NonAscii": "h\u00e9llo \u4e2d\u6587", "Backslash": "C:\\dir\\",
     "NoSource": "raised by exec'd code", "LibraryTagged": "bad </info> msg", "LibraryBackslash": "C:\\dir\\",
+    "TagCloseOpen": "</info> x <error>", "LibraryCloseOpen": "</info> x <error>",
+    "CodeMethod": "code is a method", "CodeNone": "code is None", "CodeString": "code is a string", "CodeFloat": "code is a float",
+    "CodeBig": "code is 70000",
 }
-FREE_MESSAGE = ("Foreign", "Library", "WithCode", "Chained", "NoSource")
+FREE_MESSAGE = ("Foreign", "Library", "WithCode", "Chained", "NoSource", "CodeMethod", "CodeNone", "CodeString", "CodeFloat", "CodeBig")
+ALL_KINDS = ["Foreign", "Library", "KeyboardInterrupt", "WithCode", "Chained", "TagOpen", "TagClose", "TagUnbalanced", "TagCloseOpen",
+             "MultiLine", "NonAscii", "Backslash", "NoSource", "StrFails", "LibraryTagged", "LibraryBackslash", "LibraryCloseOpen",
+             "CodeMethod", "CodeNone", "CodeString", "CodeFloat", "CodeBig"]
 
 
 # the code that raises lives in a small generated file of its own: the report highlights the whole source file of the
@@ -44,6 +50,21 @@ class WithCodeError(Exception):
     code = 77
 
 
+def _with_code(value):
+    class WithCodeError(Exception):  # same name: what carries a code differs in the code only
+        code = value
+
+    return WithCodeError
+
+
+def _code_method(self):
+    return 3
+
+
+CODES = {"CodeMethod": _with_code(_code_method), "CodeNone": _with_code(None), "CodeString": _with_code("E1234"),
+         "CodeFloat": _with_code(2.5), "CodeBig": _with_code(70000)}
+
+
 class StrFailsError(Exception):
     def __str__(self):
         raise RuntimeError("__str__ fails")
@@ -56,10 +77,12 @@ exec("def boom(msg):\\n    raise ValueError(msg)\\n", _ns)
 def raise_kind(kind, msg):
     if kind == "KeyboardInterrupt":
         raise KeyboardInterrupt()
-    if kind in ("Library", "LibraryTagged", "LibraryBackslash"):
+    if kind in ("Library", "LibraryTagged", "LibraryBackslash", "LibraryCloseOpen"):
         raise GenLibraryError(msg)
     if kind == "WithCode":
         raise WithCodeError(msg)
+    if kind in CODES:
+        raise CODES[kind](msg)
     if kind == "StrFails":
         raise StrFailsError("unprintable")
     if kind == "Chained":
@@ -124,7 +147,7 @@ class Recorder(object):
         return VALUES[self.outcome["v"]]
 
 
-def build_app(env, msgs, calls):
+def build_app(env, msgs, calls, formatter=None):
     from clikit import ConsoleApplication
     from clikit.api.args.format import Argument, Option
     from clikit.api.config import ApplicationConfig as Base
@@ -145,7 +168,8 @@ def build_app(env, msgs, calls):
         verb = {0: None, 1: F.VERBOSE, 2: F.VERY_VERBOSE, 3: F.DEBUG}[env["verb"]]
 
         def factory(app, args, input_stream, output_stream, error_stream):
-            io = IO(Input(input_stream), Output(output_stream, PlainFormatter()), Output(error_stream, PlainFormatter()))
+            fmt = formatter if formatter is not None else PlainFormatter()  # a shared one: see run_trace
+            io = IO(Input(input_stream), Output(output_stream, fmt), Output(error_stream, fmt))
             if verb is not None:
                 io.set_verbosity(verb)
             return io
@@ -198,7 +222,18 @@ def case_messages(env, override=None):
     return msgs
 
 
-def run_case(case):
+def run_trace(case):
+    """-> the trace of the case: one run, or - case["then"] = a second case - two runs one after the other whose I/Os share
+    one formatter object (only the plain application's I/O factory can do that)"""
+    if not case.get("then"):
+        return [run_case(case)]
+    from clikit.formatter import PlainFormatter
+
+    shared = PlainFormatter()
+    return [run_case(case, shared), run_case(case["then"], shared)]
+
+
+def run_case(case, formatter=None):
     """case = {"env": ..., "msgs": optional overrides} -> one event"""
     from clikit.args import StringArgs
     from clikit.io.input_stream import StringInputStream
@@ -207,7 +242,7 @@ def run_case(case):
     env = case["env"]
     msgs = case_messages(env, case.get("msgs"))
     calls = []
-    app = build_app(env, msgs, calls)
+    app = build_app(env, msgs, calls, formatter)
     line = LINES[env["line"]]
     if env["app"] == "default" and env["verb"]:
         line += " -" + "v" * env["verb"]
@@ -248,8 +283,7 @@ def nontrivial(env):
 def random_env(rng):
     app = rng.choice(["plain", "default"])
     line = rng.choice([k for k in LINES if not (k == "nosuch" and app == "default")] + ["alpha_x", "beta_gamma_y_num"])
-    kinds = ["Foreign", "Library", "KeyboardInterrupt", "WithCode", "Chained", "TagOpen", "TagClose", "TagUnbalanced", "MultiLine",
-             "NonAscii", "Backslash", "NoSource", "StrFails", "LibraryTagged", "LibraryBackslash"]
+    kinds = ALL_KINDS
     listeners = []
     for _ in range(rng.choice([0, 0, 0, 1, 1, 2, 3])):
         x = rng.random()
@@ -269,6 +303,30 @@ def random_env(rng):
     return {"env": env, "msgs": msgs}
 
 
+LEAVES_OPEN = ["<b>bold", "an <info>open tag", "</info> x <error>", "<error>", "<fg=red>r"]
+CLOSES_UNOPENED = ["bad </info> msg", "</info> x <error>", "a closing </b> tag", "</error>", "x</fg=blue>"]
+
+
+def random_pair(rng):
+    """two runs on I/Os sharing one formatter: the first report tends to leave a style tag open, the second one to close a
+    tag that it did not open"""
+    a, b = random_env(rng), random_env(rng)
+    for c, pool in ((a, LEAVES_OPEN), (b, CLOSES_UNOPENED)):
+        c["env"]["app"] = "plain"
+        c["env"]["catch"] = True
+        if c["env"]["line"] == "nosuch" and rng.random() < 0.5:
+            c["env"]["line"] = "alpha_x"
+        c["env"]["outcome"] = {"t": "raise", "v": "", "k": rng.choice(["Foreign", "Library", "Chained", "NoSource", "WithCode"])}
+        if rng.random() < 0.8:
+            c["msgs"]["handler"] = rng.choice(pool)
+    if rng.random() < 0.5:  # the second message closes exactly the tag the first one leaves open
+        tag = rng.choice(["info", "b", "error", "comment", "fg=red"])
+        a["msgs"]["handler"], b["msgs"]["handler"] = "an <%s>open tag" % tag, "bad </%s> msg" % tag
+        a["env"]["outcome"]["k"], b["env"]["outcome"]["k"] = "Foreign", rng.choice(["Library", "Foreign"])
+    a["then"] = b
+    return a
+
+
 def run(ctx):
     try:
         _run(ctx)
@@ -283,11 +341,13 @@ def _run(ctx):
         "Report, Return) for every environment of the product {plain, default application} x catching on/off x 4 verbosities x "
         "7 command lines (two commands, a sub-command, options, a missing argument, an unknown command) x pre-resolve listener "
         "{none, passes, raises} x up to 1/2 pre-handle listeners {pass, handle with 0 / '3' / 300, raise Foreign / tagged "
-        "library error / KeyboardInterrupt} x 18 handler results + 15 exception kinds, checking Contained, ZeroIff, Clamped, "
+        "library error / KeyboardInterrupt} x 18 handler results + 22 exception kinds (6 of them carrying a `code` that is an int / a method / None / a string / a float / 70000), checking Contained, ZeroIff, Clamped, "
         "Reported, Interrupt, CallsOK on every final state and termination under fairness; three sub-products (all outcomes x "
         "verbosities; all listener pairs; all lines x pre-resolve) are emitted and replayed on real applications (status, "
         "escaping exception, handler invocations with command name / arguments / options, whether anything was printed); "
-        "seeded random environments (up to 3 listeners, every value / kind anywhere, 27 adversarial messages) are recorded and "
+        "seeded random environments (up to 3 listeners, every value / kind anywhere, 33 adversarial messages; every fifth trace = "
+        "two runs whose I/Os share one formatter, the first report leaving a style tag open, the second closing one it did not "
+        "open) are recorded and "
         "decided by AppRunTrace (the printed text must show the message of the effective exception, style markup aside).  "
         "Non-trivial: something raises, a listener handles, or the result needs normalising"
     )
@@ -342,8 +402,8 @@ def _run(ctx):
     ctx.extra["tlc_environments_replayed"] = len(seen)
     ctx.extra["tlc_environments_not_reproduced"] = bad
     for t in range(1000 if quick else 20000):
-        case = random_env(ctx.rng)
-        traces.append([run_case(case)])
+        case = random_env(ctx.rng) if t % 5 else random_pair(ctx.rng)
+        traces.append(run_trace(case))
         cases.append(case)
         ctx.count()
         if nontrivial(case["env"]):
@@ -361,6 +421,6 @@ def replay(ctx, path):
     ctx.nontriv(2)
     ctx.sample(c)
     try:
-        ctx.validate(SPEC, "AppRunTrace", "AppRunTrace.cfg", [[run_case(c)]], cases=[c], name="replay")
+        ctx.validate(SPEC, "AppRunTrace", "AppRunTrace.cfg", [run_trace(c)], cases=[c], name="replay")
     finally:
         cleanup()
